@@ -373,7 +373,7 @@ class RenderAnnotation(GenericTypeRewriter[str]):
         if getattr(typ, "__module__", None) == "typing":
             rendered = rendered.replace("typing.", "")
         # Temporary hacky workaround for #76 to fix remaining NoneType hints by search-replace
-        rendered = rendered.replace("NoneType", "None")
+        rendered = re.sub(r"\bNoneType\b", "None", rendered)
         return rendered
 
 
